@@ -39,7 +39,7 @@ VAL_CONSTS = 'CONSTANT Variant = "ok"\n'
 TRC_SIMPLE = ['PEXIT', 'TPID', 'EXD', 'TERM', 'NTD']
 
 
-def concretise(world, rot, beh):
+def concretise(world, rot, beh, known=None):
     """abstract (tid, code, q) of Pairing_MC -> AEv list with rotating concrete decoders."""
     names = {}
     stream = []
@@ -66,7 +66,7 @@ def concretise(world, rot, beh):
             data = (b'\x11' * 8 + b'/some/path').ljust(32, b'\x00') if q & 1 else b'cont'.ljust(32, b'\x00')
             stream.append(world.chunk('VFS_LOOKUP', 'LKP', q, tid, data))
         elif code == 5:
-            n = names.setdefault(5, world.known_names[rot % len(world.known_names)])
+            n = names.setdefault(5, known or world.known_names[rot % len(world.known_names)])
             stream.append(world.known(q, tid, n))
         else:
             e = names.setdefault(6, world.unknown_ids[rot % len(world.unknown_ids)])
@@ -74,8 +74,8 @@ def concretise(world, rot, beh):
     return stream
 
 
-def compare_behaviour(ctx, world, rot, b):
-    stream = concretise(world, rot, b['h'])
+def compare_behaviour(ctx, world, rot, b, known=None):
+    stream = concretise(world, rot, b['h'], known)
     ex = run_stream(world, stream)
     strays = set()
     for i, exp in enumerate(b['o'], 1):
@@ -100,7 +100,7 @@ def compare_behaviour(ctx, world, rot, b):
             name = stream[i - 1].name or hex(stream[i - 1].debugid)
             ctx.violation('C04/replay/%s' % bad,
                           'spec behaviour %s: step %d (%s) code=%s spec=%s' % (b['h'], i, name, got, exp),
-                          {'kind': 'spec->code', 'behaviour': b, 'rot': rot, 'stream': describe(world, stream)})
+                          {'kind': 'spec->code', 'behaviour': b, 'rot': rot, 'known': known, 'stream': describe(world, stream)})
             return False
     return True
 
@@ -134,13 +134,20 @@ def run(ctx):
     ctx.tlc_runs.append(info)
     if len(behs) < 32 ** depth or not sims:
         raise RuntimeError('behaviour export incomplete: %d exhaustive, %d simulated' % (len(behs), len(sims)))
-    n_ok = 0
+    n_ok = extra = 0
     for i, b in enumerate(behs + sims):
         if compare_behaviour(ctx, world, i, b):
             n_ok += 1
+        # a named code WITHOUT decoder inside the behaviour: also every such code of the trace class (lost events,
+        # panic, timestamps ...), whose records must be as inert as any other undecoded record
+        if any(c == 5 for _, c, _ in b['h']) and (len(b['h']) <= 3 or i % 4 == 0):
+            for kn in world.trace_known:
+                extra += 1
+                compare_behaviour(ctx, world, i, b, known=kn)
     ctx.traces += len(behs) + len(sims)
     ctx.extra['spec_to_code'] = {'exhaustive_depth': depth, 'exhaustive_behaviours': len(behs),
-                                 'simulated_behaviours': len(sims), 'simulated_depth': 10, 'agreeing': n_ok}
+                                 'simulated_behaviours': len(sims), 'simulated_depth': 10, 'agreeing': n_ok,
+                                 'reruns_with_each_undecoded_trace_class_code': extra}
     ctx.sample({'spec_behaviour': behs[len(behs) // 2]})
     # ---- (3) code -> spec
     obs = []
@@ -148,7 +155,7 @@ def run(ctx):
     n = 1500 if ctx.quick else 20000
     names_seen = set()
     for i in range(n):
-        w = World(rnd)
+        w = World(rnd, ts='any')
         g = gen.ProgGen(w, rnd, ntids=3, noise=0.2)
         progs = [g.program(t, rnd.randrange(1, 4)) for t in (1, 2, 3)]
         stream = gen.interleave(rnd, progs)[:60]
@@ -163,7 +170,7 @@ def run(ctx):
     ctx.extra['code_to_spec'] = {'streams': nv, 'events': sum(len(o['events']) for o in obs),
                                  'distinct_decoders_exercised': len(names_seen), 'registered_decoders': len(AUDIT)}
     ctx.sample({'random_stream': describe(*streams['s0'])[:8]})
-    ctx.assumptions += ['event identity = object identity of the Kevent fed (distinct timestamps)',
+    ctx.assumptions += ['event identity = object identity of the Kevent fed (timestamps increasing, coarse with ties, or all equal)',
                         'stray ENDs inside a delivered window and swallowed continuation fragments are accepted either way',
                         'decoder classification from the frozen audit (harness/audit.json)']
     for oid, clause in rej:
@@ -181,7 +188,7 @@ def replay(ctx, path):
     print(json.dumps(rp, indent=1)[:4000])
     if rp.get('kind') == 'spec->code':
         world = World(random.Random(ctx.seed))
-        ok = compare_behaviour(ctx, world, rp['rot'], rp['behaviour'])
+        ok = compare_behaviour(ctx, world, rp['rot'], rp['behaviour'], rp.get('known'))
         return 0 if ok else 1
     return replay_stream(ctx, rp)
 
@@ -195,7 +202,7 @@ def replay_stream(ctx, rp):
     rc = 0
     for d in rp['stream']:
         words = tuple(int(x, 16) for x in d['words']) if d['words'] else (0, 0, 0, 0)
-        e = make_event(1000 + 10 * d['k'], int(d['debugid'], 16), 5000 + d['tid'], words,
+        e = make_event(d.get('ts', 1000 + 10 * d['k']), int(d['debugid'], 16), 5000 + d['tid'], words,
                        bytes.fromhex(d['data']) if d['data'] else None)
         try:
             r = p.feed(e)
